@@ -130,6 +130,9 @@ def install(active_prop):
             return True
         want = sighash_flag if sighash_flag is not None else int.from_bytes(msg[-4:], "little")
         ok = isinstance(result, (bytes, bytearray)) and len(result) > 8 and result[-1] == (want & 0xFF)
+        if ok and msg_preimage and len(msg) >= 4:
+            # in preimage mode the digest commits to msg[-4:]: the one-byte suffix has to be that committed type as well
+            ok = result[-1] == msg[-4] and int.from_bytes(msg[-4:], "little") == (want if sighash_flag is not None else int.from_bytes(msg[-4:], "little"))
         return _verdict("C01", "sig.flag_suffix", ok,
                         lambda: f"sig(flag={sighash_flag}, preimage={msg_preimage}) last byte {result[-1:].hex() if result else None}")
 
